@@ -146,7 +146,8 @@ CLAIMED = {
             "TLA+ modules OrderedMap, OrderedSet, SetArith: insertion order, exact diffs of Apply/AddAll/DeleteAll/Replace/Compute, set "
             "algebra and arithmetic thresholds, Encode/Decode; TLC exhaustive on a 3-element universe; complete LTS replay on the real "
             "objects; recorded histories validated by TLC; the pre-fix Replace kept as negative control; iterations whose consumer deletes / inserts (ForEachMut); concurrent clause: see units in props/C11.py "
-            "(linearizability histories incl. Replace with a gated view of the receiver, lock-level model, forced schedules).",
+            "(linearizability histories of ds.Set incl. Replace with a gated view of the receiver, and of OrderedMap itself - MapLin: results and the final "
+            "iteration order must fit one linearization of an insertion-ordered map -, lock-level model, forced schedules).",
             "3-element universe; concurrency clause (no deadlock/atomicity/linearizability) decided by forced schedules and free-running "
             "histories for the method pairs listed in DESIGN.md, not for all combinations.",
             "TLA+ sequential specs (TLC exhaustive), LTS tour replay, TLC trace validation, forced schedules"),
